@@ -46,9 +46,6 @@ def _judge_case(modname, desc, opts):
     obs = core.run_one(job)
     out["runs"] += 1
     out["trace"] = obs.trace if (opts.get("keep_trace") or case.get("keep_trace")) else None
-    if obs.stack_overflow:
-        out["inconclusive"] = "stack overflow"
-        return out
     prop_sig = case.get("sig", "model")
 
     def viol(sig, what, extra=None):
@@ -69,7 +66,7 @@ def _judge_case(modname, desc, opts):
         obs2 = core.run_one({"src": r.text, "bin": core.BIN_PLAIN})
         out["runs"] += 1
         if judge.outcome_mismatch(obs2, res):
-            kind = "crash" if obs.crashed else ("exit" if obs.code != (0 if res.ok else 103) else "stdout")
+            kind = "crash" if obs.died else ("exit" if obs.code != (0 if res.ok else 103) else "stdout")
             viol("%s/%s" % (prop_sig, kind), mm)
         else:
             out["inconclusive"] = "mismatch not reproduced on the plain binary"
